@@ -9,7 +9,7 @@ EXPLANATION = ("All-paths MIR rules on RedirectResolver (sync body and async cor
                "TooManyRedirects on exhaustion; every re-issued request comes from build_redirected_request on a target validated by "
                "redirect_target; Ok(Some(target)) only with allow_redirects and host_is_non_global(target) = false; the falsity conditions "
                "(DNF over all false-returning paths) of the address predicates contain every std predicate named by the property; the four "
-               "credential headers are never forwarded. Mask constants for CGNAT/ULA/link-local are counted, not interpreted.")
+               "credential headers are never forwarded. The masked comparisons for fc00::/7, fe80::/10 and 100.64.0.0/10 are decided by enumeration: every value of the prefix in the 16-bit segment / octet domain satisfies one of the function's masked tests.")
 RULE = "obligation = (function, effect/return, guard) ; DNF clauses of predicate functions are enumerated exhaustively"
 R = 'http::restricted::'
 IMPLS = [('<http::restricted::RedirectResolver<T> as http::SyncHttpResolver>::http_resolve', r'SyncHttpResolver::http_resolve$'),
@@ -154,6 +154,34 @@ def run(ctx):
                 continue
             n = len([l for l in c if re.search(r'eq\(bitand\(Ipv6Addr::segments\(ip\)', l)])
             ctx.ob('C27-D4', R + 'ipv6_is_non_global', 'return false (ipv6, class %d)' % i, '>= 2 masked segment comparisons (unique-local, link-local)', n >= 2, detail='%d segment comparisons' % n)
+    # ---- D4b masked comparisons decided by enumeration of the finite domain (a 16-bit segment / an octet): every address of the
+    # RFC prefixes the property names (fc00::/7, fe80::/10, 100.64.0.0/10) must satisfy one of the function's masked tests
+    def masked(fn_name, base_pat):
+        out = []
+        fn2 = prog.fn(fn_name)
+        for blk in fn2.B:
+            for dst, rv in blk['s']:
+                if rv['k'] == 'bin' and rv['op'] == 'Eq':
+                    a, b2 = T.op_term(fn2, rv['a']), T.op_term(fn2, rv['b'])
+                    m = re.fullmatch(r'bitand\((%s[^,]*),(\d+)\)' % base_pat, a)
+                    if m and re.fullmatch(r'\d+', b2):
+                        out.append((int(m.group(2)), int(b2)))
+        return out
+    if prog.has(R + 'ipv6_is_non_global'):
+        mv = masked(R + 'ipv6_is_non_global', r'Ipv6Addr::segments\(ip\)')
+        cov = set(x for x in range(1 << 16) if any((x & m_) == v_ for m_, v_ in mv))
+        for nm, lo, hi in (('fc00::/7 unique local', 0xfc00, 0xfe00), ('fe80::/10 link local', 0xfe80, 0xfec0)):
+            miss = [x for x in range(lo, hi) if x not in cov]
+            ctx.ob('C27-D4', R + 'ipv6_is_non_global', 'first segment of ' + nm, 'every value of the prefix satisfies a masked test (enumerated over 65536 values)', bool(mv) and not miss,
+                   detail='masked tests %s; first uncovered value %s' % ([(hex(a), hex(b)) for a, b in mv], hex(miss[0]) if miss else '-'))
+    if prog.has(R + 'ipv4_is_non_global'):
+        mv = masked(R + 'ipv4_is_non_global', r'Ipv4Addr::octets\(ip\)')
+        fn4 = prog.fn(R + 'ipv4_is_non_global')
+        has100 = any(rv['k'] == 'bin' and rv['op'] == 'Eq' and T.op_term(fn4, rv['b']) == '100' and 'Ipv4Addr::octets(ip)' in T.op_term(fn4, rv['a']) for blk in fn4.B for dst, rv in blk['s'])
+        covb = set(x for x in range(256) if any((x & m_) == v_ for m_, v_ in mv))
+        miss = [x for x in range(64, 128) if x not in covb]
+        ctx.ob('C27-D4', R + 'ipv4_is_non_global', 'second octet of 100.64.0.0/10 (shared address space)', 'first octet == 100 and every second octet 64..127 satisfies the masked test (enumerated)', has100 and bool(mv) and not miss,
+               detail='masked tests %s; first uncovered value %s' % (mv, miss[0] if miss else '-'))
     # normalisation is applied before parsing
     # ---- D5 header stripping
     br = R + 'build_redirected_request'
